@@ -21,4 +21,56 @@ JOBS = [
      "loops": SHA_LOOPS,
      "unwind": 21, "unwind_by_func": {"^_crypt_gensalt_sha_rn$": 6}, "mem_gb": 3, "timeout": 180,
      "assumptions": ["snprintf model (models/snprintf.c)"]},
+
+]
+
+def _wrapper(name, fn, tag, src):
+    return {"name": "gensalt_%s_wrapper" % name, "props": ["C10", "C11", "C12", "C13"],
+            "functions": ["gensalt_%s_rn" % name],
+            "harness": "harness/gensalt_sha.c",
+            "defs": ["WRAPPER=1", "WRAPPER_FN=gensalt_%s_rn" % name, "WRAPPER_TAG='%s'" % tag],
+            "repo_src": [src], "remove_bodies": [],
+            # only the wrapper itself is taken from the TU: everything else in
+            # the file (the hashing function and its callees) is unreachable
+            "allow_no_body": ["MD5_", "SHA256_", "SHA512_", "explicit_bzero", "strcspn", "strtoul", "strncmp"],
+            "unwind": 2, "mem_gb": 1, "timeout": 120,
+            "native_src": []}
+
+JOBS += [
+    _wrapper("md5crypt", "gensalt_md5crypt_rn", "1", "lib/crypt-md5.c"),
+    _wrapper("sha256crypt", "gensalt_sha256crypt_rn", "5", "lib/crypt-sha256.c"),
+    _wrapper("sha512crypt", "gensalt_sha512crypt_rn", "6", "lib/crypt-sha512.c"),
+]
+
+
+def _misc(name, fn, defs, src, extra=None, functions=None):
+    j = {"name": "gensalt_%s" % name, "props": ["C10", "C11", "C12", "C13"],
+         "functions": functions or [fn],
+         "harness": "harness/gensalt_misc.c",
+         "defs": ["GENSALT_FN=%s" % fn] + defs,
+         "repo_src": src + ["lib/util-base64.c"],
+         "verif_src": ["models/strings.c"],
+         "late_src": ["models/snprintf.c"],
+         "allow_no_body": [],
+         "unwind": 21, "mem_gb": 2, "timeout": 300}
+    j.update(extra or {})
+    return j
+
+JOBS += [
+    _misc("descrypt", "gensalt_descrypt_rn", ["M_descrypt=1"], ["lib/crypt-des.c"]),
+    _misc("bigcrypt", "gensalt_bigcrypt_rn", ["M_bigcrypt=1"], ["lib/crypt-des.c"],
+          functions=["gensalt_bigcrypt_rn", "gensalt_descrypt_rn"]),
+    _misc("bsdicrypt", "gensalt_bsdicrypt_rn", ["M_bsdicrypt=1"], ["lib/crypt-des.c"]),
+    _misc("bcrypt_b", "gensalt_bcrypt_rn", ["M_bcrypt='b'"], ["lib/crypt-bcrypt.c"],
+          functions=["gensalt_bcrypt_rn", "BF_gensalt", "BF_encode"]),
+    _misc("bcrypt_a", "gensalt_bcrypt_a_rn", ["M_bcrypt='a'"], ["lib/crypt-bcrypt.c"],
+          functions=["gensalt_bcrypt_a_rn", "BF_gensalt", "BF_encode"]),
+    _misc("bcrypt_y", "gensalt_bcrypt_y_rn", ["M_bcrypt='y'"], ["lib/crypt-bcrypt.c"],
+          functions=["gensalt_bcrypt_y_rn", "BF_gensalt", "BF_encode"]),
+    _misc("bcrypt_x", "gensalt_bcrypt_x_rn", ["M_bcrypt='x'"], ["lib/crypt-bcrypt.c"],
+          extra={"min_canaries": 1}),
+    _misc("sunmd5", "gensalt_sunmd5_rn", ["M_sunmd5=1"], ["lib/crypt-sunmd5.c"],
+          functions=["gensalt_sunmd5_rn", "write_itoa64_4"]),
+    _misc("nt", "gensalt_nt_rn", ["M_nt=1", "OUT_OBJ=osz"], ["lib/crypt-nthash.c", "lib/util-xstrcpy.c"],
+          functions=["gensalt_nt_rn", "strcpy_or_abort"]),
 ]
